@@ -37,6 +37,8 @@ func init() {
 			"\tc.decodeFrame = src.Data()[:readSoFar]\n\tc.decodeReset = true", "\tc.decodeFrame = src.Data()[:readSoFar-1]\n\tc.decodeReset = true", "C07-R2"},
 		mutant{"mask bytes not counted", "codec/websocket/frame_codec.go",
 			"\t\treadSoFar += frameMaskLength\n", "\t\treadSoFar += 0\n", "C07-R2"},
+		mutant{"mask skipped for empty payloads", "codec/websocket/frame_codec.go",
+			"\tif c.decodeFrame.IsMasked() {\n\t\treadSoFar += frameMaskLength", "\tif c.decodeFrame.IsMasked() && payloadLength > 0 {\n\t\treadSoFar += frameMaskLength", "C07-R2"},
 		mutant{"reset flag not set on success", "codec/websocket/frame_codec.go",
 			"\tc.decodeFrame = src.Data()[:readSoFar]\n\tc.decodeReset = true\n", "\tc.decodeFrame = src.Data()[:readSoFar]\n", "C07-R2"},
 		mutant{"resetDecode consumes a fixed header", "codec/websocket/frame_codec.go",
@@ -267,7 +269,30 @@ func runC07(c *Ctx) {
 					}
 				}
 			})
-			c.check(maskedOK, dec, "mask length", last.Pos(), "4 mask bytes are counted exactly when the mask bit is set", "the 4 mask bytes are not added under IsMasked(): masked and unmasked frames are mis-sized")
+			// ... and on every path on which the mask bit is set
+			eachInstr(dec, func(in ssa.Instruction) {
+				ifi, ok := in.(*ssa.If)
+				if !ok {
+					return
+				}
+				cond, pos := normLit(ifi.Cond, true)
+				call, ok := cond.(*ssa.Call)
+				if !ok || !isCallToFn(call, isMasked) {
+					return
+				}
+				succ := in.Block().Succs[0]
+				if !pos {
+					succ = in.Block().Succs[1]
+				}
+				okp, _ := mustPassAt(succ, 0, func(x ssa.Instruction) bool {
+					bo, ok := x.(*ssa.BinOp)
+					return ok && bo.Op == token.ADD && isConstInt(bo.Y, 4)
+				})
+				if !okp {
+					maskedOK = false
+				}
+			})
+			c.check(maskedOK, dec, "mask length", last.Pos(), "4 mask bytes are counted exactly when the mask bit is set", "the 4 mask bytes are not added on every path on which IsMasked() holds (and only there): masked frames (e.g. with an empty payload) are mis-sized and the next frame starts inside the masking key")
 			// decodeReset = true dominates the return
 			flag := false
 			for _, a := range storesTo(dec, decodeResetF) {
